@@ -404,7 +404,17 @@ def _gen_scripts(rng: Rng, comps):
     Z, SS = [], []
     for c in comps:
         n_obs, n = len(c["vals"]), len(c["vals"][0]) if c["vals"] else 0
-        Z.append([[rs(x) for x in rng.dyadics(n, -3, 3, 3)] for _ in range(n_obs)])
+        zc = [[rs(x) for x in rng.dyadics(n, -3, 3, 3)] for _ in range(n_obs)]
+        # every script also contains draws of large and tiny magnitude and an exact zero (±5, ±10, 1000, 2^-30, 0)
+        special = [Fraction(5), Fraction(-10), Fraction(1000), Fraction(1, 2**30), Fraction(0), Fraction(-5), Fraction(10)]
+        k0 = rng.randint(0, len(special) - 1)
+        pos = 0
+        for row in zc:
+            for j in range(len(row)):
+                if pos < len(special) and (pos < 3 or rng.random() < 0.5):
+                    row[j] = rs(special[(k0 + pos) % len(special)])
+                pos += 1
+        Z.append(zc)
         curves = []
         for _ in range(n_obs):
             sparse_draws = rng.random() < 0.4
